@@ -8,6 +8,7 @@
 // Same device as harness/sym/sym_c07.cpp (Vec::length only); include AFTER sym.h and BEFORE any Imath header
 // (the Imath templates call std::sqrt etc. qualified, so the overloads must be visible at their definition).
 #pragma once
+#define SYMNS_HAVE_FRACS 1 // opaque.h: OPAQUE_LENGTH then also registers the callee at exact fractions (Native::q)
 #include "frac.h"
 #include <limits>
 #include <vector>
